@@ -174,7 +174,7 @@ def step_oracle(case) -> core.CaseResult:
 
 @st.composite
 def history_cases(draw, max_steps):
-    scn = draw(sim.scenario(max_steps=max_steps, reverse=False, layouts=("sparse",), numrec=(0,),
+    scn = draw(sim.scenario(max_steps=max_steps, reverse=False, layouts=("sparse", "dense"), numrec=(0, 0, 2),
                             masks=("islands", "coast", "random", "none"), pvars=[], lonlat=(False,),
                             ref_kinds=("none",)))
     scn["diffusion"] = draw(st.sampled_from([0.0, 0.0, 5.0, 50.0]))
@@ -190,6 +190,21 @@ def history_oracle(scn) -> core.CaseResult:
         r, meta = sim.run(d, scn, record_output=True, record_ibm=True, extra_conf=extra)
         if not res.check(r["status"] == "ok", "run_fails", f"{r['exc']}\n{(r['tb'] or '')[-600:]}"):
             return res
+        # what the output files themselves show, record by record: the identifiers present
+        file_pids = []
+        try:
+            for name in e2e.list_outputs(d):
+                if scn["output"]["layout"] == "dense":
+                    g = e2e.read_dense(d / name)
+                    for n in range(len(g["times"])):
+                        m = np.ma.getmaskarray(np.ma.asarray(g["inst"]["X"][n]))
+                        file_pids.append({int(p) for p in np.nonzero(~m)[0]})
+                else:
+                    file_pids += [{int(p) for p in rec["pid"]} for rec in e2e.read_sparse(d / name)["records"]]
+        except Exception as e:  # noqa: BLE001
+            res.fail("output_unreadable", repr(e))
+            return res
+    res.cls(scn["output"]["layout"])
     G = meta["G"]
     M = G["mask"]
     jm, im = M.shape
@@ -202,8 +217,15 @@ def history_oracle(scn) -> core.CaseResult:
     dead_seen: set = set()
     prev = None
     kills = cancels = 0
+    nwrite = 0
     for ev in r["log"]:
         if ev[0] == "write":
+            if nwrite < len(file_pids):
+                back = file_pids[nwrite] & dead_seen
+                res.check(not back, "dead_in_output_file",
+                          f"record {nwrite} (step {ev[1]}) of the {scn['output']['layout']} output shows pids {sorted(back)}, "
+                          f"which were dead before it was written")
+            nwrite += 1
             pids = set(int(p) for p in ev[3]["pid"])
             res.check(not (pids & dead_seen), "dead_in_record",
                       f"record at step {ev[1]} contains dead particles {sorted(pids & dead_seen)}")
